@@ -167,3 +167,39 @@ pub fn patch_probe(
     let cells = base_grid.buffer()[0].as_float().unwrap().buf().to_vec();
     Ok(Probe { region, cells })
 }
+
+/// Runs the real `blend::patch` on a canvas and a reference grid given by value: `base[c]` /
+/// `reference[c]` are the samples (a single row) of channel `c`; the first `color_channels`
+/// channels are colour, the rest extra channels. Returns the canvas channels afterwards.
+pub fn patch_values_probe(
+    image_header: &ImageHeader,
+    color_channels: usize,
+    base: &[Vec<f32>],
+    reference: &[Vec<f32>],
+    patch_ref: &PatchRef,
+) -> Result<Vec<Vec<f32>>> {
+    fn row(values: &[f32]) -> Result<(ImageBuffer, Region)> {
+        let mut g = AlignedGrid::<f32>::with_alloc_tracker(values.len(), 1, None)?;
+        g.buf_mut().copy_from_slice(values);
+        Ok((
+            ImageBuffer::F32(g),
+            Region::with_size(values.len() as u32, 1),
+        ))
+    }
+    let mut base_grid = ImageWithRegion::new(color_channels, None);
+    for ch in base {
+        let (g, r) = row(ch)?;
+        base_grid.append_channel(g, r);
+    }
+    let mut ref_grid = ImageWithRegion::new(color_channels, None);
+    for ch in reference {
+        let (g, r) = row(ch)?;
+        ref_grid.append_channel(g, r);
+    }
+    crate::blend::patch(image_header, &mut base_grid, &ref_grid, patch_ref)?;
+    Ok(base_grid
+        .buffer()
+        .iter()
+        .map(|b| b.as_float().map(|g| g.buf().to_vec()).unwrap_or_default())
+        .collect())
+}
